@@ -75,6 +75,13 @@ type Runner struct {
 	Opened bool
 
 	Probes map[string]int
+
+	lastTxMS int64
+}
+
+// liveTTLKeys counts the keys of the model that carry a TTL and are live now.
+func (r *Runner) liveTTLKeys() int {
+	return r.M.LiveTTL(r.W.Clock.Unix())
 }
 
 func optionsOf(c prog.Config) nutsdb.Options {
@@ -270,7 +277,11 @@ func (r *Runner) step(st *prog.Step) {
 	case prog.STx, prog.SView:
 		r.txStep(st, &tr)
 	case prog.SAdvance:
+		before := r.liveTTLKeys()
 		r.W.Clock.Advance(time.Duration(st.D))
+		if after := r.liveTTLKeys(); after < before {
+			r.W.Stats.Probes["ttl-expiry-crossed-by-clock-move"] += before - after
+		}
 	case prog.SReopen:
 		r.reopen(st, &tr)
 	case prog.SMerge:
@@ -398,6 +409,11 @@ func (r *Runner) txStep(st *prog.Step, tr *StepTrace) {
 		return
 	}
 	if writable {
+		if ms := r.W.Clock.NowNS() / 1e6; ms == r.lastTxMS {
+			r.W.Stats.Probes["write-tx-in-same-millisecond-as-previous"]++
+		} else {
+			r.lastTxMS = ms
+		}
 		r.M = mtx.Commit()
 		r.W.Acked++
 		r.StateAt = append(r.StateAt, r.M)
